@@ -109,7 +109,7 @@ func runK16(c *core.Ctx) {
 		c.Analysed(handlerName(a.pk, fd))
 		for _, sq := range seqs {
 			gen := 0
-			taint := map[string]int{}  // register or slot -> generation
+			taint := map[string]int{} // register or slot -> generation
 			isSlot := map[string]Operand{}
 			stale := map[string]string{} // slot -> call during which it was the only holder
 			published := map[int]bool{}
